@@ -16,6 +16,7 @@ EXPLANATION = ("Structural necessary conditions in the mapper and the cache: the
                "per-class struct); the no-lines iterator emits class-or-frame-class, original method, file None, line 0, one entry per "
                "call; the reader selects the by-params vector / the by-params section slice by (method, params); the writer's by-params "
                "offset/len/section pairing. Composition is a paper argument.")
+EXPLANATION = EXPLANATION + ' The cache side also decides the equal-range search that cuts the (method, params) run out of the section.'
 RULE_TEXT = R1.RULE_TEXT
 TRUSTED = R1.TRUSTED
 
